@@ -5,26 +5,28 @@
 set -u
 ID="${1:?property id}"; MODE="${2:-quick}"
 export GOFLAGS=-mod=mod GOPROXY=off GOSUMDB=off GOTOOLCHAIN=local CGO_ENABLED=1
-cd /verif || exit 2
+ROOT="$(cd "$(dirname "$0")" && pwd)"   # location independent: a snapshot of /verif (vp run) works on its own copy
+cd "$ROOT" || exit 2
 mkdir -p bin evidence replays
 SEED="${VERIF_SEED:-1}"
+EVDIR="${VERIF_EVIDENCE_DIR:-$ROOT/evidence}"; RPDIR="${VERIF_REPLAYS_DIR:-$ROOT/replays}"; mkdir -p "$EVDIR" "$RPDIR"
 
 if [ "$ID" = "C20" ]; then
-  ( cd /verif/pricesim && ./build.sh /repo ) >/tmp/verif-build-C20.log 2>&1 || { echo "BUILD FAILED (pricesim)"; tail -30 /tmp/verif-build-C20.log; exit 2; }
-  if [ "$MODE" = "--replay" ]; then exec /verif/pricesim/bin/pricesim replay "${3:?file}"; fi
-  exec /verif/pricesim/bin/pricesim run --tier "$MODE" --seed "$SEED" --evidence /verif/evidence/C20.json --replays /verif/replays
+  ( cd "$ROOT/pricesim" && ./build.sh /repo ) >/tmp/verif-build-C20.log 2>&1 || { echo "BUILD FAILED (pricesim)"; tail -30 /tmp/verif-build-C20.log; exit 2; }
+  if [ "$MODE" = "--replay" ]; then exec "$ROOT/pricesim/bin/pricesim" replay "${3:?file}"; fi
+  exec "$ROOT/pricesim/bin/pricesim" run --tier "$MODE" --seed "$SEED" --evidence "$EVDIR/C20.json" --replays "$RPDIR"
 fi
 
-( cd /verif/sim && go build -tags verif -o /verif/bin/layersim ./cmd/layersim ) >/tmp/verif-build-$ID.log 2>&1 || { echo "BUILD FAILED (layersim against /repo working tree)"; tail -30 /tmp/verif-build-$ID.log; exit 2; }
+( cd "$ROOT/sim" && go build -tags verif -o "$ROOT/bin/layersim" ./cmd/layersim ) >/tmp/verif-build-$ID.log 2>&1 || { echo "BUILD FAILED (layersim against /repo working tree)"; tail -30 /tmp/verif-build-$ID.log; exit 2; }
 
 if [ "$MODE" = "--replay" ]; then
-  exec /verif/bin/layersim replay "${3:?file}"
+  exec "$ROOT/bin/layersim" replay "${3:?file}"
 fi
 case "$MODE" in
   quick)    BUDGET="${VERIF_BUDGET:-75}" ;;
   thorough) BUDGET="${VERIF_BUDGET:-1500}" ;;
   *) echo "mode must be quick|thorough|--replay"; exit 2 ;;
 esac
-/verif/bin/layersim batch --property "$ID" --tier "$MODE" --seed "$SEED" --budget "$BUDGET" --workers "${VERIF_WORKERS:-16}" \
-     --evidence "/verif/evidence/$ID.json" --replays /verif/replays --findings /verif/known_findings.json 2>&1 | grep -v '^team: '
+"$ROOT/bin/layersim" batch --property "$ID" --tier "$MODE" --seed "$SEED" --budget "$BUDGET" --workers "${VERIF_WORKERS:-16}" \
+     --evidence "$EVDIR/$ID.json" --replays "$RPDIR" --findings "$ROOT/known_findings.json" 2>&1 | grep -v '^team: '
 exit "${PIPESTATUS[0]}"
